@@ -14,7 +14,7 @@ if ! git -C "$wt" apply "$patch"; then echo "PATCH-DOES-NOT-APPLY $patch"; exit 
 for p in "$@"; do
   out=$(cd "$here" && VERIF_REPO="$wt" VERIF_EVIDENCE_DIR="$ev" VERIF_REPLAY_DIR="$ev/replays" python3 tools/check.py "$p" 2>&1)
   rc=$?
-  echo "== $p rc=$rc: $(echo "$out" | grep -E '^(VIOLATION|KNOWN-FINDING|CHECK-ERROR)' | head -3 | tr '\n' ' ' | cut -c1-300)"
+  echo "== $p rc=$rc: $({ echo "$out" | grep -E '^(VIOLATION|CHECK-ERROR)'; echo "$out" | grep -E '^KNOWN-FINDING' | cut -c1-60; } | head -3 | tr '\n' ' ' | cut -c1-300)"
   echo "$out" | grep -E "^# (property fails|proof|model)" | head -2 | cut -c1-300
 done
 # the extraction is regenerated from /repo by the next run; do it now so that no stale generated file is left behind
